@@ -47,6 +47,7 @@ RESET_EXEMPT_OBS = {("IState", "_cache"): "opt-in cross-episode @cache, document
 
 def run(ck, an, tier):
     s1(ck, an)
+    module_level_objects(ck, an)
     s2(ck, an)
     s3(ck, an)
     s4(ck, an)
@@ -92,6 +93,68 @@ def s1(ck, an):
             ck.check(not writers or reinit, "GLOBAL", "S1.no-shared-class-container", c.name, c.loc,
                      f"class-level container {c.name}.{name} is never mutated through instances" if not writers else f"{c.name}.{name} is re-created per instance",
                      f"class-level container {c.name}.{name} is mutated by {writers[:3]} and never re-created per instance: all instances (all environments) share it", construct=f"{c.name}.{name} = {ast.unparse(val)[:40]}")
+
+
+IMMUTABLE_CTORS = {"frozenset", "tuple", "str", "int", "float", "bool", "bytes", "complex", "object", "range", "timedelta", "datetime.timedelta", "datetime", "datetime.datetime", "date", "datetime.date",
+                   "re.compile", "namedtuple", "collections.namedtuple", "TypeVar", "typing.TypeVar", "logging.getLogger", "getLogger", "Decimal", "Fraction", "MappingProxyType", "types.MappingProxyType", "threading.Lock", "Lock"}
+
+
+def module_level_objects(ck, an):
+    """No function hands out or mutates an object created once at import time: such an object (a fitted transformer, a cache,
+    a table of instances) would be shared by every environment of the process."""
+    n_bind = 0
+    for m in an.prog.modules.values():
+        if m.name.startswith("_fixture"):
+            continue
+        shared = {}      # name -> (node, kind)
+        for st in m.tree.body:
+            tgts, val = [], None
+            if isinstance(st, ast.Assign):
+                tgts, val = [t for t in st.targets if isinstance(t, ast.Name)], st.value
+            elif isinstance(st, ast.AnnAssign) and st.value is not None and isinstance(st.target, ast.Name):
+                tgts, val = [st.target], st.value
+            if not tgts or val is None:
+                continue
+            inst = [c for c in ast.walk(val) if isinstance(c, ast.Call) and ast.unparse(c.func) not in IMMUTABLE_CTORS]
+            cont = isinstance(val, (ast.Dict, ast.List, ast.Set, ast.ListComp, ast.DictComp, ast.SetComp))
+            if inst or cont:
+                for t in tgts:
+                    if t.id != "__all__":
+                        shared[t.id] = (st, "instance" if inst else "container")
+        n_bind += len(shared)
+        if not shared:
+            continue
+        for f in an.functions():
+            if f.module is not m:
+                continue
+            fa = an.fa(f)
+            local = {d.var for d in fa.rd.defs}
+            for node in walk_function(f.node):
+                if not (isinstance(node, ast.Name) and isinstance(node.ctx, ast.Load) and node.id in shared and node.id not in local):
+                    continue
+                st, kind = shared[node.id]
+                par = getattr(node, "_parent", None)
+                use = None
+                # walk up through subscripts: G[k]
+                cur, up = node, par
+                while isinstance(up, ast.Subscript) and up.value is cur:
+                    cur, up = up, getattr(up, "_parent", None)
+                if isinstance(up, ast.Attribute) and up.value is cur and isinstance(getattr(up, "_parent", None), ast.Call) and getattr(up, "_parent").func is up:
+                    meth = up.attr
+                    if kind == "instance" or meth in ("append", "appendleft", "extend", "insert", "pop", "popleft", "remove", "clear", "update", "setdefault", "add", "discard", "sort", "reverse", "__setitem__"):
+                        use = f"calls .{meth}() on it"
+                elif isinstance(up, (ast.Assign, ast.AugAssign, ast.AnnAssign)) and kind == "instance" and getattr(up, "value", None) is cur:
+                    use = "stores it (the same object) elsewhere"
+                elif isinstance(up, ast.Return) and kind == "instance":
+                    use = "returns it"
+                elif isinstance(up, (ast.Call, ast.keyword)) and kind == "instance":
+                    use = "passes it on"
+                if isinstance(cur, ast.Subscript) and isinstance(cur.ctx, (ast.Store, ast.Del)):
+                    use = "assigns into it"
+                if use:
+                    ck.fail("GLOBAL", "S1.no-module-level-object-shared", f.short, f"{f.module.relpath}:{node.lineno}",
+                            f"{f.short} {use}: `{node.id}` is created once at import time ({m.relpath}:{st.lineno}) and is therefore shared by every environment in the process", construct=f"{node.id} = {ast.unparse(st.value)[:60]}")
+    ck.ok("GLOBAL", "S1.no-module-level-object-shared", "package", "tradingenv", f"{n_bind} module-level mutable bindings; none is handed out or mutated by a function", construct="module level")
 
 
 def s2(ck, an):
@@ -286,6 +349,8 @@ def s5(ck, an):
         ck.check(ok, "RESET", "S5.transmitter-reset-reassigns", fr.f.short, fr.f.loc, f"_reset unconditionally re-assigns {a}", f"Transmitter.{a} is advanced by _next but not re-assigned by _reset on every path", construct=f"self.{a} = ...")
     for attr in ("_partition_latent", "_partition_nonlatent"):
         own_writers(ck, an, "S5.partitions-immutable", "Transmitter", attr, {"Transmitter._create_partitions", "Transmitter.__init__"}, min_sites=1)
+    from rules import C04
+    C04.partition_reads(ck, an, "S5.partitions-immutable-under-reads")      # reading a defaultdict partition with an absent key would add a key (a step of later episodes)
     for f in an.functions():
         for e in an.fa(f).effects():
             if e.attr in ("_events_latent", "_events_nonlatent") and e.kind in "MD":
@@ -318,6 +383,14 @@ def s6(ck, an):
     ck.check(bool(fr.calls_to("AbstractReward.reset")), "RESET", "S6.env-resets-reward", fr.f.short, fr.f.loc, "TradingEnv.reset calls reward.reset()", "TradingEnv.reset does not reset the reward", construct="self._reward.reset()")
 
 
+def _on_self(node, m):
+    """the written attribute hangs off the method's own `self`"""
+    cur = node
+    while isinstance(cur, (ast.Attribute, ast.Subscript, ast.Call)):
+        cur = cur.func if isinstance(cur, ast.Call) else cur.value
+    return isinstance(cur, ast.Name) and bool(m.params) and cur.id == m.params[0]
+
+
 def s7(ck, an):
     n = 0
     for f in an.functions():
@@ -337,6 +410,19 @@ def s7(ck, an):
                     n += 1
                     reason = DEFAULT_OK.get((f.short, p.arg))
                     if reason:
+                        # the premise of the exemption (stateless / immutable) is itself decided: no method of the instance's class, of its
+                        # bases or of its subclasses other than __init__ writes an attribute of the instance
+                        writers = []
+                        for k in an.prog.mro(r) + an.prog.subclasses(r):
+                            for mn, m_ in k.methods.items():
+                                if mn in ("__init__", "__new__"):
+                                    continue
+                                for e in an.fa(m_).effects():
+                                    if e.kind in "WMD" and isinstance(e.node, (ast.Attribute, ast.Subscript, ast.Call)) and (e.owner == k.name or an.owner_matches(e.owner, r.name)) and _on_self(e.node, m_):
+                                        writers.append(f"{k.name}.{mn} writes self.{e.attr} ({e.loc})")
+                        stateful_ok = (f.short, p.arg) == ("TradingEnv.__init__", "state")
+                        ck.check(not writers or stateful_ok, "ALIAS", "S7.shared-default-is-stateless", f.short, loc, f"the shared default {p.arg}={ast.unparse(d)} keeps no state after construction",
+                                 f"the default {p.arg}={ast.unparse(d)} is ONE object shared by every environment built with the default, and it keeps state: {writers[:3]}", construct=f"{p.arg}={ast.unparse(d)}")
                         ck.exempt("ALIAS:S7.no-shared-default-object", f"{f.short}({p.arg}={ast.unparse(d)})", reason)
                         ck.ok("ALIAS", "S7.no-shared-default-object", f.short, loc, f"reviewed default instance {p.arg}={ast.unparse(d)}: {reason}", construct=f"{p.arg}={ast.unparse(d)}")
                     else:
